@@ -272,9 +272,15 @@ func runSpec(spec *TASpec, scratch string) *TAResult {
 // workerMain: read specs (JSON lines) on stdin, write "BEGIN <index>" then the result JSON line.
 func workerMain() {
 	taInit()
-	scratch, err := os.MkdirTemp("", "verif-worker-")
-	if err != nil {
-		fatal("%v", err)
+	// the parent creates (and removes) the scratch directory: it may have to kill this process,
+	// and then no deferred call runs here
+	scratch := os.Getenv("VERIF_WORKER_SCRATCH")
+	if scratch == "" {
+		var err error
+		scratch, err = os.MkdirTemp("", "verif-worker-")
+		if err != nil {
+			fatal("%v", err)
+		}
 	}
 	defer os.RemoveAll(scratch)
 	in := bufio.NewReaderSize(os.Stdin, 1<<20)
@@ -336,13 +342,22 @@ func RunSpecs(specs []*TASpec, parallel int) []*TAResult {
 			var cmd *exec.Cmd
 			var stdin io.WriteCloser
 			var rd *bufio.Reader
+			var wscratch string
+			dropScratch := func() {
+				if wscratch != "" {
+					os.RemoveAll(wscratch)
+					wscratch = ""
+				}
+			}
 			startWorker := func() {
+				dropScratch()
+				wscratch, _ = os.MkdirTemp(os.Getenv("VERIF_PARENT_SCRATCH"), "verif-worker-")
 				cmd = exec.Command(os.Args[0], "-worker")
 				cmd.Stderr = nil
 				stdin, _ = cmd.StdinPipe()
 				so, _ := cmd.StdoutPipe()
 				rd = bufio.NewReaderSize(so, 1<<20)
-				cmd.Env = append(os.Environ(), "GOMAXPROCS=2")
+				cmd.Env = append(os.Environ(), "GOMAXPROCS=2", "VERIF_WORKER_SCRATCH="+wscratch)
 				if err := cmd.Start(); err != nil {
 					fatal("worker: %v", err)
 				}
@@ -354,6 +369,7 @@ func RunSpecs(specs []*TASpec, parallel int) []*TAResult {
 					cmd.Wait()
 					cmd = nil
 				}
+				dropScratch()
 			}
 			defer stopWorker()
 			for {
